@@ -1104,7 +1104,7 @@ MUTANTS.append({"id": "C14-forced-types-through-identity-ordered-set", "prop": "
   "expect": "R14.5c|InterrogateBuilder::build",
   "edits": [("src/interrogate/interrogateBuilder.cxx", "  // First, get all the types that were explicitly forced.\n  Commands::const_iterator ci;",
              "  // First, get all the types that were explicitly forced.\n  std::set<CPPType *, CPPTypeCompare> forced_types;\n  Commands::const_iterator ci;"),
-            ("src/interrogate/interrogateBuilder.cxx", "    assert(type != nullptr);\n    get_type(type, true);\n  }", "    assert(type != nullptr);\n    forced_types.insert(type);\n  }\n  for (CPPType *type : forced_types) {\n    get_type(type, true);\n  }")]})
+            ("src/interrogate/interrogateBuilder.cxx", "      continue;\n    }\n    get_type(type, true);\n  }", "      continue;\n    }\n    forced_types.insert(type);\n  }\n  for (CPPType *type : forced_types) {\n    get_type(type, true);\n  }")]})
 
 M("C19-string-payload-through-streambuf", "C19", "src/interrogatedb/interrogate_datafile.cxx",
   "  out << str.length() << whitespace;\n  if (!str.empty()) {\n    out << str << whitespace;", "  out << str.length() << whitespace;\n  if (!str.empty()) {\n    out.rdbuf()->sputn(str.data(), str.length());\n    out << whitespace;",
